@@ -91,9 +91,13 @@ pub enum Perturb {
     Leftover,
     IntervalFieldRange,
     IntervalPastLimit,
+    /// one letter of a name / meridian replaced by a non-ASCII look-alike (long s, Kelvin sign,
+    /// dotless i, full-width letter): must not be folded onto the ASCII letter
+    Lookalike,
 }
 
-pub const PERTURBS: [Perturb; 24] = [
+pub const PERTURBS: [Perturb; 25] = [
+    Perturb::Lookalike,
     Perturb::Leftover,
     Perturb::Month0,
     Perturb::Month13,
@@ -147,6 +151,7 @@ pub fn perturb_name(p: Perturb) -> &'static str {
         Perturb::Leftover => "neg-leftover-text",
         Perturb::IntervalFieldRange => "neg-interval-field-out-of-range",
         Perturb::IntervalPastLimit => "neg-interval-past-limit",
+        Perturb::Lookalike => "neg-unicode-lookalike-letter",
     }
 }
 
@@ -434,6 +439,7 @@ pub fn build(kind: Kind, raw: i128, choices: &[u32], neg: u32) -> Built {
         Perturb::WeekdayWrong => has(&ctoks, &|t| matches!(t, Tok::D | Tok::Day(_) | Tok::Dy(_))),
         Perturb::DoyDisagrees => has(&ctoks, &|t| *t == Tok::DDD) && has(&ctoks, &|t| *t == Tok::DD),
         Perturb::IntervalFieldRange | Perturb::IntervalPastLimit => false,
+        Perturb::Lookalike => has(&ctoks, &|t| matches!(t, Tok::Mon(_) | Tok::Month(_) | Tok::Day(_) | Tok::Dy(_) | Tok::Mer { .. })),
     };
     if !applicable_p {
         perturb = Perturb::Leftover;
@@ -525,6 +531,7 @@ pub fn build(kind: Kind, raw: i128, choices: &[u32], neg: u32) -> Built {
     let mut text = String::new();
     let n_tok = cut.unwrap_or(ctoks.len());
     let mut last_value_full_width = false;
+    let mut lookalike_done = false;
     for i in 0..n_tok {
         let (t, _) = &ctoks[i];
         let is_dup_tail = dup_text.is_some() && i + 2 >= ctoks.len();
@@ -534,7 +541,12 @@ pub fn build(kind: Kind, raw: i128, choices: &[u32], neg: u32) -> Built {
         // next spelled text starts with a digit? (then numbers must be padded)
         let next_is_digit = (i + 1..n_tok).find(|&j| !matches!(ctoks[j].0, Tok::Blank(0))).map(|j| starts_with_digit(&ctoks[j].0)).unwrap_or(false);
         if t.is_value_bearing() && ch.flag(1, 8) {
-            let n = 1 + ch.pick(3);
+            let n = if ch.flag(1, 24) {
+                tags.push("long-blank-run-in-text");
+                250 + ch.pick(60)
+            } else {
+                1 + ch.pick(3)
+            };
             text.push_str(&" ".repeat(n));
             tags.push("extra-blanks");
         }
@@ -675,6 +687,10 @@ pub fn build(kind: Kind, raw: i128, choices: &[u32], neg: u32) -> Built {
             }
             Tok::W | Tok::WW => {}
         }
+        if perturb == Perturb::Lookalike && !lookalike_done && matches!(t, Tok::Mon(_) | Tok::Month(_) | Tok::Day(_) | Tok::Dy(_) | Tok::Mer { .. }) {
+            piece = lookalike(&piece);
+            lookalike_done = true;
+        }
         text.push_str(&piece);
     }
     if let Some(d) = &dup_text {
@@ -695,6 +711,41 @@ pub fn build(kind: Kind, raw: i128, choices: &[u32], neg: u32) -> Built {
     }
     let picture = gen::spell_all(&ctoks);
     Built { kind, picture, text, expect: if negative || !in_range { None } else { Some(total) }, tags, negative }
+}
+
+/// Replaces one letter by a non-ASCII character that case-folds or looks like it.
+pub fn lookalike(s: &str) -> String {
+    let mut out = String::new();
+    let mut done = false;
+    for c in s.chars() {
+        if !done {
+            let r = match c {
+                's' | 'S' => Some('\u{17f}'),
+                'k' | 'K' => Some('\u{212a}'),
+                'i' | 'I' => Some('\u{131}'),
+                _ => None,
+            };
+            if let Some(r) = r {
+                out.push(r);
+                done = true;
+                continue;
+            }
+        }
+        out.push(c);
+    }
+    if !done {
+        // no such letter: full-width form of the first ASCII letter
+        out.clear();
+        for c in s.chars() {
+            if !done && c.is_ascii_alphabetic() {
+                out.push(char::from_u32(c as u32 + 0xFEE0).unwrap());
+                done = true;
+            } else {
+                out.push(c);
+            }
+        }
+    }
+    out
 }
 
 fn starts_with_digit(t: &Tok) -> bool {
